@@ -32,12 +32,13 @@ type Known struct {
 	Case     string `json:"case"`             // glob over the abstract case id ('*' matches anything)
 	Symptom  string `json:"symptom"`          // exact symptom class, or '*'
 	Detail   string `json:"detail,omitempty"` // optional glob over the normalised detail
+	NotDetail string `json:"not_detail,omitempty"` // optional glob: the entry does not apply when the detail matches it
 	What     string `json:"what"`
 	Status   string `json:"status"` // open | fixed
 	Commit   string `json:"commit,omitempty"`
 	Repro    string `json:"repro,omitempty"`
 
-	reCase, reDetail *regexp.Regexp
+	reCase, reDetail, reNotDetail *regexp.Regexp
 }
 
 func glob(p string) *regexp.Regexp {
@@ -99,6 +100,9 @@ func LoadKnown() ([]*Known, error) {
 		k.reCase = glob(k.Case)
 		if k.Detail != "" {
 			k.reDetail = glob(k.Detail)
+		}
+		if k.NotDetail != "" {
+			k.reNotDetail = glob(k.NotDetail)
 		}
 		out = append(out, k)
 	}
@@ -226,6 +230,9 @@ func Normalise(s string) string {
 	if s == "" {
 		return s
 	}
+	if strings.HasPrefix(s, "role:") {
+		return s // coordinate paths are already free of concrete names and values
+	}
 	if i := strings.IndexByte(s, '\n'); i >= 0 {
 		s = s[:i]
 	}
@@ -270,6 +277,9 @@ func (k *Known) matches(prop string, f *Finding) bool {
 		return false
 	}
 	if k.reDetail != nil && !k.reDetail.MatchString(f.Detail) {
+		return false
+	}
+	if k.reNotDetail != nil && k.reNotDetail.MatchString(f.Detail) {
 		return false
 	}
 	return true
